@@ -228,7 +228,10 @@ def streams(rng, tier):
     def judge_after(op, impl, model, spec):
         if op.startswith("givesup"):
             return "ok" if impl == "err" else "violation"
-        return judge_enc(op, impl, model, spec)
+        r = judge_enc(op, impl, model, spec)
+        # bytes that differ from the model's here, while the same operation agrees with the model in `roundtrip-tenc`, differ because of
+        # what came before on the thread: a concrete failing history (the replay puts the failed calls in front of the operation)
+        return "violation" if r == "corr" and split_enc(impl) is not None else r
     s0 = Stream("encodings-after-failed-calls", "hcore", fops, model_ops=fmops, judge=judge_after,
                 nontrivial=lambda op, impl: split_enc(impl) is not None,
                 rule="tenc <type> <value> with `givesup <k>` (a to_vec and a to_vec_with that fail after k+2 bytes) before every third one, all on one thread: "
